@@ -720,6 +720,16 @@ impl HandlerRunner {
             if self.cur_wru_foreign && term.starts_with("H~") {
                 out.push(format!("!MON C03 whoareyou-from-foreign-address-acted-on node={}", idx));
             }
+            // C04: every transmission of a request goes to the address of the contact it was made for
+            if let Some(i) = term.find("|req/") {
+                if let Some(r) = term[i + 5..].split('/').next().and_then(|x| x.parse::<u64>().ok()) {
+                    if let Some(l) = self.ledger.reqs.get(&(idx, r)) {
+                        if dst != node_addr(l.to) {
+                            out.push(format!("!MON C04 request-sent-to-another-address-than-its-contact node={} rid={} to={} contact={}", idx, r, dst, node_addr(l.to)));
+                        }
+                    }
+                }
+            }
             if self.cur_wru_finished && term.starts_with("H~") {
                 out.push(format!("!MON C03 whoareyou-for-request-no-longer-in-flight-acted-on node={}", idx));
             }
